@@ -276,6 +276,10 @@ class WebSocketWriter:
         # take the send lock, so that the compressed frames that hold it or
         # already wait for it are written first.
         self._closing = True
+        if self._background_tasks:
+            # Before Python 3.12 (no eager start) a send task created in this
+            # loop iteration has not queued for the lock yet: let them finish.
+            await asyncio.wait(self._background_tasks)
         async with self._send_lock:
             await self.send_frame(
                 PACK_CLOSE_CODE(code) + message, opcode=WSMsgType.CLOSE
